@@ -223,7 +223,7 @@ Proof. intros H. unfold ube4, u8. lia. Qed.
 Lemma parse_mux_tag_header t : wf_tag t ->
   parse_tag_header (mux_tag_header t) = Ok (t_type t, lenN (t_body t), t_ts t).
 Proof.
-  intros (Hty & Hts & Hsz). unfold parse_tag_header, mux_tag_header.
+  intros (Hty & Hts & Hsz). unfold parse_tag_header, mux_tag_header, mux_tag_header_n.
   cbn [idx nth_error bind].
   replace (u32 (lenN (t_body t))) with (lenN (t_body t)) by (unfold u32; lia).
   rewrite ube3_be3 by assumption. rewrite ube4_be4 by assumption.
@@ -258,7 +258,7 @@ Proof.
     by apply app_nil_r.
   rewrite <- !app_assoc in F1. rewrite app_nil_l in F1. rewrite app_assoc in F1.
   assert (Hm : lenN (t_body t ++ mux_tag_trailer t) = u32 (lenN (t_body t) + 4)).
-  { rewrite lenN_app. unfold mux_tag_trailer. rewrite lenN_be4. unfold u32. lia. }
+  { rewrite lenN_app. unfold mux_tag_trailer, mux_tag_trailer_n. rewrite lenN_be4. unfold u32. lia. }
   destruct (read_via_ok strip_pts s1 _ _ _ tm _ F1 Hm (strip_pts_ok _ _ (lenN_be4 _)))
     as (s2 & H2 & F2).
   exists s2. split; [exact H2|exact F2].
@@ -312,7 +312,8 @@ Proof. destruct hv, ha; reflexivity. Qed.
 
 Lemma spec_tag_eq t : wf_tag t -> tag_bytes t = spec_tag t.
 Proof.
-  intros (Hty & Hts & Hsz). unfold tag_bytes, spec_tag, mux_tag_header, mux_tag_trailer, be3, be4.
+  intros (Hty & Hts & Hsz).
+  unfold tag_bytes, spec_tag, mux_tag_header, mux_tag_header_n, mux_tag_trailer, mux_tag_trailer_n, be3, be4.
   set (n := lenN (t_body t)) in *. set (ts := t_ts t) in *.
   replace (u32 n) with n by (unfold u32; lia).
   replace (u32 (11 + n)) with (11 + n) by (unfold u32; lia).
@@ -346,8 +347,8 @@ Proof.
   - induction Hb as [|t ts Ht _ IH]; [constructor|].
     cbn [map concat]. apply Forall_app. split; [|exact IH].
     unfold tag_bytes. apply Forall_app. split; [|apply Forall_app; split; [exact Ht|]].
-    + unfold mux_tag_header, u8. repeat constructor; unfold wf_byte; lia.
-    + unfold mux_tag_trailer, be4. repeat constructor; unfold wf_byte; lia.
+    + unfold mux_tag_header, mux_tag_header_n, u8. repeat constructor; unfold wf_byte; lia.
+    + unfold mux_tag_trailer, mux_tag_trailer_n, be4. repeat constructor; unfold wf_byte; lia.
 Qed.
 
 (* ---------- the segmented readers used by the harness ---------- *)
@@ -439,7 +440,7 @@ Qed.
 Lemma parse_mux_tag_header_any t : t_type t < 256 -> t_ts t < 4294967296 -> lenN (t_body t) < 4294967296 ->
   parse_tag_header (mux_tag_header t) = Ok (t_type t, lenN (t_body t) mod 16777216, t_ts t).
 Proof.
-  intros Hty Hts Hsz. unfold parse_tag_header, mux_tag_header.
+  intros Hty Hts Hsz. unfold parse_tag_header, mux_tag_header, mux_tag_header_n.
   cbn [idx nth_error bind].
   replace (u32 (lenN (t_body t))) with (lenN (t_body t)) by (unfold u32; lia).
   rewrite ube4_be4 by assumption.
@@ -518,3 +519,14 @@ Proof.
     destruct (read_tags_truncated tags _ fuel s1 [] tm Hwf Hfuel F1) as (k & w & Hr).
     exists k, w. rewrite Hr. reflexivity.
 Qed.
+
+(* ---------- a one-tag file: everything around the body is a function of the body's length ---------- *)
+Theorem mux_single hv ha t :
+  mux hv ha [t] = mux_header hv ha ++ mux_tag_header_n (t_type t) (t_ts t) (lenN (t_body t))
+                  ++ t_body t ++ mux_tag_trailer_n (lenN (t_body t)).
+Proof. rewrite mux_concat. cbn [map concat]. rewrite app_nil_r. reflexivity. Qed.
+
+(* ... and for every length below 2^32-11 the trailer is the 4-byte big-endian 11 + length,
+   the size field the low 24 bits of the length *)
+Lemma trailer_n_spec len : len + 11 < 4294967296 -> mux_tag_trailer_n len = be4 (11 + len).
+Proof. intros H. unfold mux_tag_trailer_n. f_equal. unfold u32. lia. Qed.
